@@ -86,6 +86,18 @@ def setup_path(world, contract, ex, ctx, prefix):
                      for i, s in enumerate(kind.leaf_sorts())])
         it.env[name] = v
         it.assume_valid(v)
+    # parameters of the real signature that the contract does not know (added by a change): unconstrained inputs of
+    # the kind of their constant default - any caller-supplied value is possible
+    a = ex.node.args
+    pos = list(a.posonlyargs) + list(a.args)
+    defaults = [None] * (len(pos) - len(a.defaults)) + list(a.defaults)
+    for arg, d in list(zip(pos, defaults)) + list(zip(a.kwonlyargs, a.kw_defaults)):
+        if arg.arg in contract.params or arg.arg in it.env or arg.arg in (contract.vararg, contract.kwarg):
+            continue
+        if isinstance(d, ast.Constant) and isinstance(d.value, (bool, int, str)):
+            kind = K.Bool if isinstance(d.value, bool) else (K.Int if isinstance(d.value, int) else K.Str)
+            it.env[arg.arg] = V(kind, [z3.Const('in!%s!0' % arg.arg, kind.leaf_sorts()[0])])
+            p.__dict__.setdefault('opaque', set()).add('parameter %s (not in the contract)' % arg.arg)
     it.inputs = dict(it.env)
     if contract.kwarg:
         it.env[contract.kwarg] = PyObj('pykwargs', items={k: it.env[k] for k in contract.kwarg_keys})
